@@ -73,7 +73,9 @@ Emit ==
                            SumSeq(Tup([k \in 1..sc.N |->
                                   LET d0 == Sub(val(0, ctl[k + 1]), val(0, ctl[k]))
                                       d1 == Sub(val(1, ctl[k + 1]), val(1, ctl[k]))
-                                  IN Add(Mul(d0, d0), Mul(d1, d1))]))))]))
+                                  IN Add(Mul(d0, d0), Mul(d1, d1))])))),
+        \* objective term of its own:  integral(next(x1) * x2, grid='control')  = sum over the N intervals of  dt_k x1(t_k+1) x2(t_k)
+        objn |-> SumSeq(Tup([k \in 1..sc.N |-> Mul(Mul(sc.T, Sub(ctl[k + 1], ctl[k])), Mul(val(0, ctl[k + 1]), val(1, ctl[k])))]))]))
 Post == /\ ndJsonSerialize(IOEnv.OUT_FILE, TLCGet(1)) /\ PrintT(<<"emitted", Len(TLCGet(1))>>)
 ASSUME TLCSet(1, <<>>)
 =============================================================================
